@@ -65,6 +65,17 @@ def run_case(case, ctx):
             A = g("init", lambda: SS.SpanSet(list(a), eq_relation=rel_obj(ra)))
         B = g("init", lambda: SS.SpanSet(iter(b), eq_relation=rel_obj(rb)))
         ka, kb = build(a, ra), build(b, rb)
+        A0 = None
+        if case.get("via_copy"):
+            # the relation variant is made the way the repository's own tests make theirs: an exact set is built and queried,
+            # copied, and the copy gets another relation (its stored spans are those the exact construction kept)
+            A0 = g("init", lambda: SS.SpanSet(list(a), eq_relation=rel_obj(0)))
+            for x in sorted(set(a) | set(b)):
+                g("in", lambda: x in A0)
+            A = g("copy", lambda: A0.copy())
+            A.eq_relation = rel_obj(ra)
+            ka = build(a, 0)
+            ctx.label("relation-variant-made-from-a-queried-copy")
         la, lb = g("iter", lambda: list(A)), g("iter", lambda: list(B))
         ctx.need(la == ka and lb == kb, "SpanSet/init/construction-differs",
                  lambda: "relation %s: built %r from %r, definition gives %r" % (REL_NAMES[ra], la, a, ka))
@@ -107,6 +118,12 @@ def run_case(case, ctx):
             got = g(name, op)
             ctx.need(bool(got) == exp, "SpanSet/%s/wrong" % name,
                      lambda: "A(%s)=%r %s B(%s)=%r is %r, definition gives %r" % (REL_NAMES[ra], ka, name, REL_NAMES[rb], kb, got, exp))
+        if A0 is not None:
+            k0 = build(a, 0)
+            for x in sorted(set(a) | set(b)):
+                r0 = g("in", lambda: x in A0)
+                ctx.need(r0 == any(rel(0, x, y) for y in k0), "SpanSet/in/original-changed-by-its-copy",
+                         lambda: "%r in the exact set %r = %r after its copy got relation %s" % (x, k0, r0, REL_NAMES[ra]))
         # operators and comparisons are pure: both operands still hold exactly their spans (second iteration, len, membership)
         la2, lb2 = g("iter", lambda: list(A)), g("iter", lambda: list(B))
         ctx.need(la2 == ka and lb2 == kb and len(A) == len(ka) and len(B) == len(kb), "SpanSet/operand-changed-by-an-operator",
@@ -169,6 +186,6 @@ def strategies(tier):
     floats = span(st.integers(0, 16).map(lambda i: i / 4))
     case = st.one_of(*[
         st.fixed_dictionaries({"a": st.lists(sp, max_size=5), "b": st.lists(sp, max_size=5), "ra": st.integers(0, 3),
-                               "rb": st.integers(0, 3), "two_seq": st.booleans(), "probes": st.lists(sp, max_size=3)})
+                               "rb": st.integers(0, 3), "two_seq": st.booleans(), "via_copy": st.sampled_from([False, False, True]), "probes": st.lists(sp, max_size=3)})
         for sp in (ints, floats)])
     return [("drawn-pairs", case, 1000000 if big else 10000)]
